@@ -60,7 +60,9 @@ struct Explorer {
             for (size_t oi = 0; oi < alphabet.size(); ++oi) {
                 const Op& op = alphabet[oi];
                 if (enabled && !enabled(*nodes[cur].s, op)) continue;
-                set_case(idx++, context, context + " ops=" + history(cur, (int)oi));
+                uint64_t my_index = idx++;
+                if (skipped(my_index)) { R.flags["exhaustive"] = false; continue; }   // crashed the process in an earlier attempt (reported by the driver)
+                set_case(my_index, context, context + " ops=" + history(cur, (int)oi));
                 std::unique_ptr<S> n(new S(*nodes[cur].s));
                 Mon::reset();
                 std::string err;
